@@ -1,6 +1,6 @@
 (** C12 - export files sit at the documented location with exactly the declared length.  Statements only. *)
 From TB Require Import Base Decimal BencodeModel TorrentModel TorrentProofs PathModel FsModel SolverModel FinderModel RunModel
-                       SolverProofs RunProofs FsProofs FaultProofs PreludeProofs TableProofs Generated GeneratedObligations SystemModel SystemProofs GlueProofs RunExample.
+                       SolverProofs RunProofs FsProofs FaultProofs PreludeProofs TableProofs Generated GeneratedObligations SystemModel SystemProofs GlueProofs RunExample PropertyLemmas.
 Local Open Scope N_scope.
 
 Theorem C12_single_file_location export ih name :
@@ -15,7 +15,7 @@ Proof. exact (target_multi_shape export ih name fpath). Qed.
 
 (** The directory name has 40 lowercase hexadecimal digits for a 20-byte hash. *)
 Theorem C12_dir_name_length ih : length ih = 20%nat -> length (hexdigest ih) = 40%nat.
-Proof. intros Hl. rewrite hex_length, Hl. reflexivity. Qed.
+Proof. exact (dir_name_length ih). Qed.
 
 (** What a piece may create or write: only export images of its non-padding segments; [SetLen]
     always sets exactly the declared length; padding entries never occur in a mutating operation. *)
@@ -33,7 +33,7 @@ Proof. exact (subtrees_disjoint export ih1 ih2 p). Qed.
 (** After [set_len declared] the file has exactly the declared length, and a write inside the
     declared length keeps it. *)
 Theorem C12_resize_length b n : length (resize b n) = n.
-Proof. unfold resize. rewrite app_length, firstn_length, repeat_length. lia. Qed.
+Proof. exact (resize_length b n). Qed.
 
 (** WHOLE RUN: whatever exists in a reachable state and did not exist when scanning started is a
     directory on the way to the export image of a non-padding entry, or such an export image - so
